@@ -200,6 +200,11 @@ func genC01(r *Rand, tier, profile string) *Case {
 			pid++
 		}
 		c.Steps = append(c.Steps, Step{K: "settle", At: 50})
+		if r.Bool(0.25) {
+			// one client's link dies under the broker's next write to it, while it is still a
+			// registered recipient: whatever happens to it, the other sessions' copies are due
+			c.Steps = append(c.Steps, Step{K: "writefail", At: 1, C: r.Intn(nc)})
+		}
 		np := r.Range(1, 8)
 		for i := 0; i < np; i++ {
 			tag++
@@ -380,8 +385,8 @@ var e1Stub = []string{"TCP/TLS/WS listeners -> simconn (buffered, deadline-aware
 
 func init() {
 	register(&Check{ID: "C01", Level: "exploration", Build: "maporder", Gen: genC01, Run: runC01, QuickS: 25, ThoroughS: 420,
-		Rule:   "a case = 1-3 nodes, 2-5 clients, subscribe/unsubscribe/re-subscribe history over 1-4 level filters from {a,b,c,+,#,empty}, settle, publish burst over 1-4 level topics from {a,b,c,empty}, settle, judged per (publish, session); non-trivial when >=1 delivery judged with >=1 wildcard filter active; distinct by hash of the scenario",
-		Real:   e1Real, Stub: e1Stub,
+		Rule: "a case = 1-3 nodes, 2-5 clients, subscribe/unsubscribe/re-subscribe history over 1-4 level filters from {a,b,c,+,#,empty}, settle, publish burst over 1-4 level topics from {a,b,c,empty}, settle, judged per (publish, session); non-trivial when >=1 delivery judged with >=1 wildcard filter active; distinct by hash of the scenario",
+		Real: e1Real, Stub: e1Stub,
 		Assume: []string{"sessions judged are those that stayed connected and whose SUBSCRIBE/UNSUBSCRIBE packets were all acknowledged", "delivery QoS is not judged, only the number of copies", "gossip loss/duplication/delay is active before each settle; a settle ends with two push-pull rounds"}})
 }
 
@@ -392,7 +397,7 @@ var c02Prefills = []int{0, 0, 0, 1, 9, 10, 11, 499, 500, 501, 999, 1000, 1499, 1
 
 func genC02(r *Rand, tier, profile string) *Case {
 	c := &Case{Profile: "pipeline", Knobs: map[string]int64{"nodes": 1}}
-	if r.Bool(0.2) {
+	if r.Bool(0.35) {
 		c.Knobs["nodes"] = 2
 	}
 	if r.Bool(0.3) {
@@ -408,6 +413,15 @@ func genC02(r *Rand, tier, profile string) *Case {
 	npub := r.Range(1, 3)
 	filters := []string{"t/#", "t/+", "t/x", "#", "+/x"}
 	slow := r.Bool(0.3)
+	if nodes == 2 && r.Bool(0.7) {
+		// subscribers of the other node (not judged here, cross-node delivery is C14's): their
+		// subscriptions sit next to the local ones in every match list
+		for i := 0; i < r.Range(1, 2); i++ {
+			c.Steps = append(c.Steps, Step{K: "connect", At: int64(r.Range(1, 10)), C: 5 + i, N: 1, S: fmt.Sprintf("far%d", i), U: "u", T: "p", I: 600})
+			c.Steps = append(c.Steps, Step{K: "sub", At: int64(r.Range(1, 10)), C: 5 + i, L: []string{r.Pick(filters)}, QL: []int{r.Intn(3)}, I: 1})
+		}
+		c.Steps = append(c.Steps, Step{K: "sleep", At: 5, I: int64(r.Range(50, 600))})
+	}
 	for i := 0; i < nsub; i++ {
 		c.Steps = append(c.Steps, Step{K: "connect", At: int64(r.Range(1, 20)), C: i, N: 0, S: fmt.Sprintf("sub%d", i), U: "u", T: "p", I: 600})
 		if slow && r.Bool(0.6) {
@@ -569,8 +583,8 @@ func runC02(t *testing.T, c *Case) *Outcome {
 
 func init() {
 	register(&Check{ID: "C02", Level: "exploration", Build: "maporder", Gen: genC02, Run: runC02, QuickS: 25, ThoroughS: 480,
-		Rule:   "a case = message log pre-filled with K entries (K around 0,1,10,500,1000,1500,2000), 1-3 subscribers on node 0 with matching filters that stay connected and acknowledge, 1-3 publishers (QoS 1/2, payload 0-64 KiB) issuing 1-40 (thorough: up to 2600) publishes; every acknowledged publish is judged against every stable matching subscriber; non-trivial when >=1 delivery judged; distinct by hash of the scenario",
-		Real:   e1Real, Stub: e1Stub,
+		Rule: "a case = message log pre-filled with K entries (K around 0,1,10,500,1000,1500,2000), 1-3 subscribers on node 0 with matching filters that stay connected and acknowledge, 1-3 publishers (QoS 1/2, payload 0-64 KiB) issuing 1-40 (thorough: up to 2600) publishes; every acknowledged publish is judged against every stable matching subscriber; non-trivial when >=1 delivery judged; distinct by hash of the scenario",
+		Real: e1Real, Stub: e1Stub,
 		Assume: []string{"fault-free network; subscribers acknowledge promptly", "a publish counts as acknowledged when the publisher observed PUBACK (QoS 1) or PUBCOMP (QoS 2)"}})
 }
 
@@ -578,6 +592,170 @@ func init() {
 // C07 retained
 
 var c07Topics = []string{"a", "a/b", "a/b/c", "a/c", "b"}
+
+
+// ---------------------------------------------------------------------------------------
+// C07 variant "race": a retained publish and a matching SUBSCRIBE handed to the broker in the
+// same driver turn, under seeded preemption (lockstep build): whichever way the two interleave
+// inside the broker, the subscriber must end up with the broker's own final retained value -
+// through the replay, or through the live copy if its subscription came first.
+
+func genC07Race(r *Rand, tier, profile string) *Case {
+	c := &Case{Profile: "retained-race", Knobs: map[string]int64{"nodes": 1}}
+	c.Knobs["preempt_permille"] = int64(r.PickInt([]int{5, 20, 60, 150}))
+	topic := r.Pick([]string{"a", "a/b", "a/b/c"})
+	var ts []tstep
+	t := int64(1)
+	ts = append(ts, tstep{t, Step{K: "connect", C: 0, N: 0, S: "pubr", U: "u", T: "p", I: 3000}})
+	ts = append(ts, tstep{t + 3, Step{K: "connect", C: 1, N: 0, S: "subr", U: "u", T: "p", I: 3000}})
+	np := 1
+	if r.Bool(0.3) {
+		np = 2
+		ts = append(ts, tstep{t + 5, Step{K: "connect", C: 2, N: 0, S: "pubr2", U: "u", T: "p", I: 3000}})
+	}
+	t += 20
+	if r.Bool(0.6) {
+		ts = append(ts, tstep{t, Step{K: "pub", C: 0, T: topic, S: "v1", Q: 1, F: true, I: 1}})
+	}
+	t += 400
+	// the racing turn
+	var turn []Step
+	for i := 0; i < np; i++ {
+		payload := fmt.Sprintf("v%d", i+2)
+		if r.Bool(0.25) {
+			payload = "" // a clear
+		}
+		cl := 0
+		if i == 1 {
+			cl = 2
+		}
+		turn = append(turn, Step{K: "pub", C: cl, T: topic, S: payload, Q: 1, F: true, I: int64(10 + i)})
+	}
+	fs := []string{r.Pick([]string{topic, "#", "a/#", "+/#"})}
+	qs := []int{r.Intn(3)}
+	for r.Bool(0.4) && len(fs) < 3 {
+		fs, qs = append(fs, r.Pick([]string{"z/#", "a/+", "+", "a/b/#"})), append(qs, r.Intn(3))
+	}
+	if r.Bool(0.5) { // the matching filter is not always the first
+		fs[0], fs[len(fs)-1] = fs[len(fs)-1], fs[0]
+		qs[0], qs[len(qs)-1] = qs[len(qs)-1], qs[0]
+	}
+	sub := Step{K: "sub", C: 1, L: fs, QL: qs, I: 1}
+	pos := r.Intn(len(turn) + 1)
+	turn = append(turn[:pos], append([]Step{sub}, turn[pos:]...)...)
+	for i := range turn {
+		turn[i].W = i+1 < len(turn)
+		ts = append(ts, tstep{t, turn[i]})
+	}
+	t += 2500
+	ts = append(ts, tstep{t, Step{K: "sleep", I: 500}})
+	c.Steps = mergeTimelines(ts)
+	return c
+}
+
+func judgeRetainedRace(w *world) {
+	endMs := w.nowMs()
+	sub := w.clients[1]
+	if sub == nil || !w.clientAliveThrough(sub) {
+		return
+	}
+	var topic string
+	var filters []string
+	subStep := -1
+	for si, s := range w.c.Steps {
+		if s.K == "pub" && s.F {
+			topic = s.T
+		}
+		if s.K == "sub" && s.C == 1 {
+			filters, subStep = s.L, si
+		}
+	}
+	if subStep < 0 || topic == "" {
+		return
+	}
+	st := w.txStamp(subStep, 1, tSUBSCRIBE)
+	if st < 0 {
+		return
+	}
+	if ok, _ := w.ackSeen(1, sub.epoch, tSUBACK, int(w.c.Steps[subStep].I), st); !ok {
+		return
+	}
+	// every racing publish must have been acknowledged (processed)
+	for si, s := range w.c.Steps {
+		if s.K == "pub" && s.F && s.I >= 10 {
+			cl := w.clients[s.C]
+			ps := w.txStamp(si, s.C, tPUBLISH)
+			if cl == nil || ps < 0 {
+				return
+			}
+			if ok, _ := w.ackSeen(s.C, cl.epoch, tPUBACK, int(s.I), ps); !ok {
+				w.o.probe("racing_publish_unacknowledged")
+				return
+			}
+		}
+	}
+	matches := false
+	for _, f := range filters {
+		if refMatch(f, topic) {
+			matches = true
+		}
+	}
+	if !matches {
+		return
+	}
+	// the broker's own final retained value for the topic
+	final := ""
+	msgs, err := w.nodes[0].dstate.Topics().Get([]byte("_default/" + topic))
+	if err == nil {
+		for _, m := range msgs {
+			if m.Publish != nil && string(m.Publish.Topic) == "_default/"+topic {
+				final = tagOf(m.Publish.Payload)
+				if len(m.Publish.Payload) > 0 && final == "" {
+					final = string(m.Publish.Payload)
+				}
+			}
+		}
+	}
+	// what the subscriber received on that topic (live copies of two racing publishers may reach
+	// it in either order, so the final value has to be among them rather than last)
+	got := map[string]bool{}
+	sawEmpty := false
+	replayed := 0
+	seen := 0
+	var list []string
+	for _, ob := range w.obs {
+		if ob.Rx && ob.Client == 1 && ob.Epoch == sub.epoch && ob.P.Type == tPUBLISH && ob.P.Topic == topic && !ob.P.Dup {
+			seen++
+			tg := tagOf(ob.P.Payload)
+			if len(ob.P.Payload) == 0 {
+				sawEmpty = true
+			} else {
+				got[tg] = true
+				if ob.P.Retain {
+					replayed++
+				}
+			}
+			list = append(list, fmt.Sprintf("%s(retain=%v)", tg, ob.P.Retain))
+		}
+	}
+	w.o.Nontrivial = true
+	w.o.cover(fmt.Sprintf("final=%v seen=%d", final != "", seen))
+	attrs := map[string]string{"final_empty": fmt.Sprint(final == ""), "received": fmt.Sprint(seen)}
+	switch {
+	case final != "" && !got[final]:
+		w.o.violate("C07", "stale-after-race", subStep, endMs, attrs,
+			"a retained publish on %q raced a SUBSCRIBE (%q): the broker's retained value ended up as %q, the subscriber received %v on that topic: it was neither replayed the newest value nor sent the live copy", topic, filters, final, list)
+	case final == "" && replayed > 0 && !sawEmpty:
+		// (a live, unflagged copy of another publisher's message is not retained state; only a
+		// replayed value that was never taken back is)
+		w.o.violate("C07", "stale-after-race", subStep, endMs, attrs,
+			"a retained clear on %q raced a SUBSCRIBE (%q): the topic ended up cleared, yet the subscriber was left with %v and never saw the clearing publish", topic, filters, list)
+	}
+}
+
+func runC07Race(t *testing.T, c *Case) *Outcome {
+	return runE1(t, c, profileHooks{judge: judgeRetainedRace})
+}
 
 func genC07(r *Rand, tier, profile string) *Case {
 	c := &Case{Profile: "retained", Knobs: map[string]int64{}}
@@ -1081,12 +1259,16 @@ func runC14(t *testing.T, c *Case) *Outcome {
 
 func init() {
 	register(&Check{ID: "C07", Level: "exploration", Build: "maporder", Gen: genC07, Run: runC07, QuickS: 30, ThoroughS: 480,
-		Rule:   "a case = 1-3 nodes, 2-4 clients, rounds of retained publishes (non-empty / empty payload) and plain publishes over topics with shared prefixes, a settle, then subscriptions with exact and wildcard filters on any node, each followed by a 1.3 s observation window; the replayed set is compared with a reference map; non-trivial when >=1 subscribe judged with a non-empty reference; distinct by hash of the scenario",
-		Real:   e1Real, Stub: e1Stub,
+		Rule: "a case = 1-3 nodes, 2-4 clients, rounds of retained publishes (non-empty / empty payload) and plain publishes over topics with shared prefixes, a settle, then subscriptions with exact and wildcard filters on any node, each followed by a 1.3 s observation window; the replayed set is compared with a reference map; non-trivial when >=1 subscribe judged with a non-empty reference; distinct by hash of the scenario",
+		Real: e1Real, Stub: e1Stub,
 		Assume: []string{"a SUBSCRIBE with several filters replays once per (filter, matching topic)", "retained writes to one topic are ordered by simulated time (the CRDT clock is one strictly increasing stamp); concurrent cross-node writes are not generated"}})
+	register(&Check{ID: "C07", Variant: "race", Level: "exploration", Build: "lockstep", Gen: genC07Race, Run: runC07Race, QuickS: 20, ThoroughS: 300,
+		Rule: "concurrent variant: one node, an optional earlier retained value, then one or two retained publishes (or clears) and a SUBSCRIBE with 1-3 filters handed to the broker in the same driver turn, executed on the statement-instrumented build with seeded preemption (the running goroutine yields at PRNG-chosen statements, one P) and the race detector on; the subscriber's last message on the topic must be the broker's own final retained value (replay or live copy), or nothing / the clearing publish if the topic ended up cleared",
+		Real: e1Real, Stub: append([]string{"goroutine scheduling inside the broker: Go runtime with one P plus PRNG-chosen runtime.Gosched() at instrumented statements"}, e1Stub...),
+		Assume: []string{"racing publishes are QoS 1 and judged only if acknowledged", "single node: cross-node races between a subscription's gossip and a publish are C01's live variant"}})
 	register(&Check{ID: "C14", Level: "fault_enumeration", Build: "maporder", Gen: genC14, Run: runC14, QuickS: 30, ThoroughS: 480,
-		Rule:   "a case = 2-3 nodes, a PRNG placement of 1-4 subscribers and one publisher, and for that placement every subset of remote nodes made unreachable in turn (fast failure, black hole or partition per node), 1-2 QoS 1 publishes per subset; appends per node, acknowledgement and copies per subscriber are judged against the publisher node's view; non-trivial when >=1 publish judged; distinct by hash of the scenario",
-		Real:   e1Real, Stub: e1Stub,
+		Rule: "a case = 2-3 nodes, a PRNG placement of 1-4 subscribers and one publisher, and for that placement every subset of remote nodes made unreachable in turn (fast failure, black hole or partition per node), 1-2 QoS 1 publishes per subset; appends per node, acknowledgement and copies per subscriber are judged against the publisher node's view; non-trivial when >=1 publish judged; distinct by hash of the scenario",
+		Real: e1Real, Stub: e1Stub,
 		Assume: []string{"the publisher node's view is its subscription listing at the step that injects the publish", "placements and failure modes are sampled; the subsets of unreachable remote nodes are enumerated completely per placement"}})
 }
 
@@ -1259,7 +1441,7 @@ func runC01Live(t *testing.T, c *Case) *Outcome {
 
 func init() {
 	register(&Check{ID: "C01", Variant: "live", Level: "exploration", Build: "maporder", Gen: genC01Live, Run: runC01Live, QuickS: 15, ThoroughS: 300,
-		Rule:   "variant 'live': 2-3 nodes, subscribe/unsubscribe/publish interleaved at gaps from 1 ms to 1.5 s with gossip loss/duplication/delay and occasional push-pull, no settle; a publish must reach a remote matching session iff the LWW fold of the subscription updates the publishing node had been handed by then contains a live matching subscription hosted on that session's node; sessions whose own filters changed within [-0.1 s, +0.7 s] of the publish are not judged",
-		Real:   e1Real, Stub: e1Stub,
+		Rule: "variant 'live': 2-3 nodes, subscribe/unsubscribe/publish interleaved at gaps from 1 ms to 1.5 s with gossip loss/duplication/delay and occasional push-pull, no settle; a publish must reach a remote matching session iff the LWW fold of the subscription updates the publishing node had been handed by then contains a live matching subscription hosted on that session's node; sessions whose own filters changed within [-0.1 s, +0.7 s] of the publish are not judged",
+		Real: e1Real, Stub: e1Stub,
 		Assume: []string{"what a node 'has learned' is reconstructed from the gossip and push-pull payloads the simulator actually delivered to it (decoded with the protobuf codec, not read from the node's state)"}})
 }
